@@ -9,6 +9,16 @@ CLAIMED = {
                 "FortranReader.__next__ is not proved.",
         "note": "Partial: per-function and per-pattern obligations only.",
     },
+    "C05": {
+        "engines": ["A", "Bd"],
+        "technique": "contract-based deductive verification: VCs from the ASTs of _should_display / filter_display / FortranCodeUnit.prune / FortranType.prune / "
+                     "FortranBlockData.prune against the display-selection oracle (heap model with aliasable containers, callee contracts, frames), z3",
+        "text": "Selection half of C05 proved for all heaps: _should_display equals the documented selection predicate, filter_display is the order-preserving "
+                "filter by it, and after prune() every child list of a unit that carries an accessibility holds exactly the selected members (procedure "
+                "internals hidden when proc_internals is off). What the templates render and the search index are not reachable by contracts; a bounded "
+                "run of the real pipeline on 216 generated cases stands in for the composition (labelled bounded, not counted).",
+        "note": "Partial: selection, not rendering. Recursive prune() calls and FortranBase.iterator use assumed contracts.",
+    },
 }
 _NB = "no obligations built yet for this property in the current commit (planned in DESIGN.md section 6; technique not switched)"
-NOT_APPLICABLE = {p: _NB for p in ["C01", "C03", "C04", "C05", "C06", "C07", "C08", "C09", "C10", "C11", "C12", "C13", "C14", "C15", "C16", "C17", "C18", "C19", "C20"]}
+NOT_APPLICABLE = {p: _NB for p in ["C01", "C03", "C04", "C06", "C07", "C08", "C09", "C10", "C11", "C12", "C13", "C14", "C15", "C16", "C17", "C18", "C19", "C20"]}
